@@ -348,7 +348,9 @@ class PathAccessError(GlomError, AttributeError, KeyError, IndexError):
         self.part_idx = part_idx
 
     def get_message(self):
-        path_part = Path(self.path).values()[self.part_idx]
+        # self.path may be rooted at S or A: Path(<Path>) only takes T-rooted ones
+        path = self.path if isinstance(self.path, Path) else Path(self.path)
+        path_part = path.values()[self.part_idx]
         return ('could not access %r, part %r of %r, got error: %r'
                 % (path_part, self.part_idx, self.path, self.exc))
 
